@@ -32,7 +32,12 @@ TConv == /\ l <= Len(Tr) /\ Ev.e = "Conv" /\ Ev.rc = 0
          /\ Ev.outm = names[ftab["lm"]]["lm"][Ev.m] /\ Ev.outw = names[ftab["lw"]]["lw"][Ev.w]
          /\ Ev.outam = names[ftab["am"]]["am"][Ev.m] /\ Ev.outaw = names[ftab["aw"]]["aw"][Ev.w]
          /\ UNCHANGED vars /\ Step
-TNext == TReset \/ TSetI \/ TSetF \/ TResetI \/ TResetF \/ TTables \/ TConv
+\* a dgrep run: the expression operand and the lines are written with the parse table's month names; sel = which lines came out
+TSel == /\ l <= Len(Tr) /\ Ev.e = "Sel" /\ Ev.rc = 0
+        /\ Ev.inm = names[ptab["lm"]]["lm"][Ev.min]
+        /\ Ev.sel = Ev.want
+        /\ UNCHANGED vars /\ Step
+TNext == TReset \/ TSetI \/ TSetF \/ TResetI \/ TResetF \/ TTables \/ TConv \/ TSel
 TSpec == TInit /\ [][TNext]_<<vars, l>>
 Accepted == TLCGet("stats").diameter - 1 = Len(Tr)
 =============================================================================
